@@ -87,11 +87,19 @@ impl Rng {
     /// 0, 1, boundary, byte-distinct marker, random.
     pub fn scalar(&mut self, bits: u32, marker_index: u64) -> u64 {
         let mask = if bits >= 64 { u64::MAX } else { (1u64 << bits) - 1 };
-        match self.below(8) {
+        match self.below(10) {
             0 => 0,
             1 => 1,
             2 => mask,
             3 => mask >> 1,
+            // small numbers: sizes, type numbers and other values that mean
+            // something elsewhere in the format (8 = size of an end tag, …)
+            8 => self.below(33) & mask,
+            // single bits and values around byte boundaries
+            9 => {
+                let b = self.below(bits as u64);
+                ((1u64 << b).wrapping_sub(self.below(2))) & mask
+            }
             4 | 5 => {
                 // Byte-distinct marker: every byte of every argument differs,
                 // so swapped same-width fields and wrong endianness show up.
@@ -111,12 +119,16 @@ impl Rng {
 
     pub fn bytes(&mut self, n: usize) -> Vec<u8> {
         let mut v = Vec::with_capacity(n);
-        let style = self.below(4);
+        let style = self.below(6);
+        // an 8-byte MBI end tag / header end tag image: content that looks
+        // like a terminator must not confuse anything
+        const END_LIKE: [u8; 8] = [0, 0, 0, 0, 8, 0, 0, 0];
         for i in 0..n {
             v.push(match style {
                 0 => (i as u8).wrapping_add(1),
                 1 => 0,
                 2 => 0xff,
+                3 => END_LIKE[i % 8],
                 _ => self.next_u64() as u8,
             });
         }
